@@ -97,7 +97,9 @@ pub struct Built {
 pub fn run_built(out: &mut CaseOut, b: Built, what: &str, detail: bool) -> RunOut {
     let Built { call, world, mut expected, family, normalise, detail: d } = b;
     let run = crate::harness::run_call(world, &call);
-    let truncated = run.world.hist.iter().any(|h| matches!(h, crate::world::Hist::UdpRecv { len, full_len, .. } if len < full_len));
+    // the GameSpy 3 handshake is read into a 16-byte buffer by design (an 11-character challenge loses
+    // only its terminator): only data replies count as truncated
+    let truncated = run.world.hist.iter().any(|h| matches!(h, crate::world::Hist::UdpRecv { len, full_len, .. } if len < full_len && *full_len > 64));
     let mut tmp = CaseOut::default();
     compare_norm(&mut tmp, &family, what, &mut expected, &run, normalise);
     for mut v in tmp.violations {
